@@ -68,6 +68,8 @@ type dynStats struct {
 	ProgShape        map[string]int           `json:"program_shape_totals"`
 	Samples          []map[string]interface{} `json:"samples"`
 	RunsPerCombo     int                      `json:"runs_per_combo"`
+	Regression       int                      `json:"regression_items"`
+	RegressionFailed []string                 `json:"regression_items_failed"`
 	DistinctAccepted int                      `json:"distinct_accepted_combos"`
 }
 
@@ -129,6 +131,27 @@ func runDynamic(t Tools, dir string, seed uint64, tier string, out *vl.Out) dynS
 		return false
 	}
 	seenCombo := map[string]bool{}
+	// regression corpus first: the minimal witnesses of the three defects this check found (iteration
+	// order of a Go map reaching output bytes); each must give ONE hash over its runs. A Go 1.23 map of
+	// <= 8 entries is iterated from a random slot of its single bucket: two entries swap in 1 run of 8
+	// only, so the 2-entry witnesses get 40 runs (miss < 0.6%) and the 8-entry ones 16.
+	for ri, w := range regressionCorpus() {
+		d, ok := differs(t, w.p, w.o, filepath.Join(dir, "regress", fmt.Sprint(ri)), w.runs)
+		st.Executions += w.runs
+		st.Regression++
+		if !ok {
+			st.CombosRejected = append(st.CombosRejected, "regression/"+w.name+": rejected by thriftgo")
+			continue
+		}
+		if d != nil {
+			st.RegressionFailed = append(st.RegressionFailed, w.name)
+			if !covered(w.o, d) {
+				minimal = append(minimal, found{w.o, d})
+				out.Fail(mkFail(w.p, w.o, d, 40))
+			}
+		}
+	}
+	os.RemoveAll(filepath.Join(dir, "regress"))
 	// batches of 8 programs keep the disk footprint small: run, compare, delete
 	all := combos
 	for base := 0; base < len(all); base += 8 * nOpt {
@@ -300,4 +323,46 @@ func copyTree(src, dst string) {
 		}
 		return nil
 	})
+}
+
+type witness struct {
+	name string
+	p    Prog
+	o    OptSet
+	runs int
+}
+
+// regressionCorpus: inputs on which thriftgo's output used to differ from run to run: the three
+// minimal witnesses and wider variants (maps of 8 entries).
+func regressionCorpus() []witness {
+	one := func(lines ...string) Prog { return Prog{Files: []IDLFile{{Name: "main0.thrift", Lines: lines}}} }
+	refl := OptSet{Name: "with_reflection", Backend: "go", Opts: []string{"with_reflection"}}
+	nofmt := OptSet{Name: "fastgo-no_fmt", Backend: "fastgo", Opts: []string{"no_fmt"}}
+	plug := OptSet{Name: "plugin", Backend: "go", Plugin: true}
+	wide := Prog{Files: []IDLFile{{Name: "main0.thrift"}}}
+	var anns, ents, names []string
+	for i := 0; i < 8; i++ {
+		base := fmt.Sprintf("inc0_%d", i)
+		wide.Files[0].Lines = append(wide.Files[0].Lines, fmt.Sprintf(`include "%s.thrift"`, base))
+		wide.Files = append(wide.Files, IDLFile{Name: base + ".thrift", Lines: []string{fmt.Sprintf("namespace go p0.inc%d", i), "struct A { 1: bool x }", "struct B {}"}})
+		anns = append(anns, fmt.Sprintf(`x.k%d="v"`, i))
+		ents = append(ents, fmt.Sprintf(`"k%d": "v%d"`, i, i))
+		names = append(names, fmt.Sprintf("%d: %s.A a%d", i+1, base, i))
+	}
+	for i, l := range []string{"go", "java", "py", "rs", "cpp", "js", "php", "rb"} {
+		wide.Files[0].Lines = append(wide.Files[0].Lines, fmt.Sprintf("namespace %s p0.main%d", l, i%2))
+	}
+	wide.Files[0].Lines = append(wide.Files[0].Lines,
+		fmt.Sprintf("const map<string,string> C = {%s}", strings.Join(ents, ", ")),
+		fmt.Sprintf("struct S { %s } (%s)", strings.Join(names, ", "), strings.Join(anns, ", ")),
+		fmt.Sprintf("struct T { 1: map<string,string> m = {%s} (%s) }", strings.Join(ents, ", "), strings.Join(anns, ", ")),
+		"struct U1 {}", "struct U2 {}", "enum E { A = 1 }", "exception X { 1: string m }", "service Svc { void f() throws (1: X x) }")
+	return []witness{
+		{"descriptor: two namespaces (minimal)", one("namespace go p0.main", "namespace rs p0.main"), refl, 40},
+		{"fastgo imports: fmt and unsafe (minimal)", one("struct S { 1: bool a }"), nofmt, 40},
+		{"plugin request: two names (minimal)", one("struct A {}", "struct B {}"), plug, 40},
+		{"descriptor: 8 includes, 8 namespaces, 8 annotations, 8 map entries", wide, refl, 16},
+		{"fastgo imports: 8 included packages", wide, nofmt, 16},
+		{"plugin request: 8 names, 8 includes", wide, plug, 16},
+	}
 }
